@@ -123,10 +123,20 @@ def _run(op, real, args, kwargs):
 
 
 def _wrap_path1(name, kind, real):
+    import sys as _sys
+
     def w(path, *a, **k):
         if _active() is None or isinstance(path, int):
             return real(path, *a, **k)
-        return _run(Op(kind, name, path), real, (path,) + a, k)
+        kd = kind
+        if name == "os.stat":
+            # os.path.getsize() is the one stat whose failure is NOT reported as 'absent' but raised to the caller
+            try:
+                if _sys._getframe(1).f_code.co_name == "getsize":
+                    kd = "getsize"
+            except ValueError:
+                pass
+        return _run(Op(kd, name, path), real, (path,) + a, k)
     w.__name__ = real.__name__
     w.__wrapped__ = real
     return w
